@@ -7,10 +7,12 @@ every exception class the k-th invocation raises, on freshly built objects.
 import gc
 import warnings
 
-from traits.adaptation.api import AdaptationManager
+from traits.adaptation.api import (AdaptationManager,
+                                   get_global_adaptation_manager,
+                                   set_global_adaptation_manager)
 from traits.api import (Any, Dict, Either, HasTraits, Instance, Int, List,
-                        Property, Set, Str, TraitError, TraitType, Union,
-                        cached_property, observe)
+                        Property, Set, Str, Supports, TraitError, TraitType,
+                        Union, cached_property, observe)
 from traits.observation.api import match, trait
 from traits.trait_dict_object import TraitDict
 from traits.trait_list_object import TraitList
@@ -94,8 +96,31 @@ def factory():
     return A(v=1)
 
 
+class GP:
+    """global-manager protocol: A adapts to it through an instrumented
+    factory"""
+
+    def __init__(self, adaptee):
+        self.adaptee = adaptee
+
+
+def global_factory(adaptee):
+    INJ.point("adapter_factory_g")
+    return GP(adaptee)
+
+
 class Obj(HasTraits):
     x = Custom()
+    #: compound whose first alternative adapts and whose second accepts the
+    #: raw value
+    sup = Either(Supports(GP), Instance(A))
+    #: legacy dependency mechanism, cached
+    pd = Property(Int, depends_on="x")
+
+    @cached_property
+    def _get_pd(self):
+        INJ.point("cached_getter")
+        return self.x * 10
     u = Union(Str, Custom())
     lst = List(Custom())
     dct = Dict(Custom(), Custom())
@@ -200,6 +225,12 @@ class World:
 
         def obs_log(ev):
             calls.append(("obs_log", type(ev.new).__name__))
+            INJ.point("observe_handler")
+
+        def otc_pd(new):
+            calls.append(("otc_pd", new))
+        self.h = self.h + (otc_pd,)
+        self.o.on_trait_change(otc_pd, "pd")
         self.h = self.h + (otc_log, obs_log)
         self.o.on_trait_change(otc_log, "log")
         self.o.observe(obs_log, "log")
@@ -231,6 +262,7 @@ class World:
             self.o.st = {1}
             self.o.pv = 2
             self.o.pc
+            self.o.pd
             self.o.dyn
             self.o.fac
         calls.clear()
@@ -293,6 +325,7 @@ SCENARIOS = {
     "prop-get": lambda w: w.o.pv,
     "prop-set": lambda w: setattr(w.o, "pv", 9),
     "prop-cached-get": lambda w: w.o.pc,
+    "prop-depends-get": lambda w: w.o.pd,
     "list-append": lambda w: w.o.lst.append(3),
     "list-extend3": lambda w: w.o.lst.extend([3, 4, 5]),
     "list-slice-set": lambda w: w.o.lst.__setitem__(slice(0, 1), [7, 8]),
@@ -328,6 +361,7 @@ SCENARIOS = {
     "set-discard": lambda w: w.o.st.discard(1),
     "list-pop": lambda w: w.o.lst.pop() if len(w.o.lst) else None,
     "list-sort": lambda w: w.o.lst.sort(reverse=True),
+    "assign-compound-adapter": lambda w: setattr(w.o, "sup", A(v=5)),
     "adapt-chain3": lambda w: setattr(w, "adapted",
                                       w.mgr.adapt(w.adaptee, P3)),
     "observe-register-match": lambda w: w.o.observe(
@@ -380,7 +414,9 @@ def plain(v):
         return sorted((repr(k), plain(x)) for k, x in v.items())
     if isinstance(v, (set, frozenset)):
         return sorted(map(repr, v))
-    return v
+    if v is None or isinstance(v, (int, float, str, bytes, bool)):
+        return v
+    return "<%s>" % type(v).__name__
 
 
 def snapshot(w):
@@ -437,6 +473,9 @@ def followup(w):
     rec(lambda: setattr(o, "x", 11))
     rec(lambda: o.x)
     rec(lambda: o.pc)
+    rec(lambda: o.pd)
+    rec(lambda: setattr(o, "x", 12))
+    rec(lambda: o.pd)
     rec(lambda: setattr(o, "x", -1))
     rec(lambda: o.lst.append(21))
     rec(lambda: o.lst.append("bad"))
@@ -454,6 +493,11 @@ def followup(w):
     obs.append(("calls", list(w.calls)))
     obs.append(("state", state_only(w)))
     return obs
+
+
+_MGR = AdaptationManager()
+_MGR.register_factory(global_factory, A, GP)
+set_global_adaptation_manager(_MGR)
 
 
 def run(name, pre, k, exc_name):
@@ -512,7 +556,8 @@ def scenario(ctx, name, pre):
             #  notification is being built is in the same position as a
             #  change handler: the operation that triggered it is complete)
             if site in HANDLER_SITES or (site == "cached_getter" and
-                                         name != "prop-cached-get"):
+                                         name not in ("prop-cached-get",
+                                                      "prop-depends-get")):
                 # the operation is complete, all other handlers still ran
                 if out[0] != "ok" and out0[0] == "ok":
                     bad("handler-fault-propagated", "a failing change "
@@ -522,6 +567,11 @@ def scenario(ctx, name, pre):
                 w_ref, _, _ = run(name, pre, None, None)
                 ref_calls = list(w_ref.calls)
                 got_calls = list(w.calls)
+                if site == "cached_getter":
+                    # the failing getter's own property cannot be announced
+                    # (its new value could not be computed)
+                    ref_calls = [c for c in ref_calls if c[0] != "otc_pd"]
+                    got_calls = [c for c in got_calls if c[0] != "otc_pd"]
                 if state_only(w) != state_only(w_ref):
                     bad("handler-fault-state", "with a failing change "
                         "handler the final state differs from the "
